@@ -52,6 +52,14 @@ def gen(rng, driver):
         elif ck == 'link-dangling': sc.l(tgt, b'/X/not-there')
         else: sc.s(tgt, 'fifo')
         sc.coll = (n, k, ck)
+    if rng.random() < 0.35:
+        # bystanders named like TEMPORARY or partial versions of a target (name.part, name.tmp, .name.swp, name~, name.xcp-1): they
+        # are existing entries like any other
+        n0, k0 = rng.choice(srcs)
+        suf = rng.choice([b'.part', b'.tmp', b'~', b'.xcp-1', b'.partial', b'.new'])
+        tname = (b'T-' + n0 if single_T else n0) + suf
+        if not any(e['p'] == b'/W/DEST/' + tname for e in sc.entries):
+            rng.choice([lambda: sc.f(b'/W/DEST/' + tname), lambda: sc.l(b'/W/DEST/' + tname, b'keep')])()
     sc.opts = ['r', 'n'] + (['T'] if single_T else [])
     # option combinations must not weaken no-clobber
     sc.extra = rng.choice([[], [], ['--backup=numbered'], ['--backup=auto'], ['--fsync'], ['--no-perms'], ['--reflink=never'], ['--no-timestamps'], ['--no-progress'], ['--no-progress']])
@@ -76,7 +84,16 @@ def run(ctx):
     c1 = treerun.Scn(); c1.d(b'/W').d(b'/W/s1').d(b'/W/s1/data').l(b'/W/s1/x', b'data').d(b'/W/s2').d(b'/W/s2/x').f(b'/W/s2/x/keep.txt').d(b'/W/DEST').d(b'/W/DEST/data').f(b'/W/DEST/data/keep.txt')
     c1.opts = ['r', 'n']; c1.paths = [b's1/x', b's2/x', b'DEST']; c1.coll = (b'x/keep.txt', 'f', 'file'); c1.meta = dict(dest=b'/W/DEST'); c1.extra = []
     c1.forced_plan = ['stallp symlink * 300000', 'stallp mkdir * 1200000']; c1.no_model = True
-    scs = [c0, c1] + [gen(rng, ['parfile', 'parblock'][i % 2]) for i in range(n)]
+    # corpus 3: several sources whose names are PREFIXES of one another (data, data.csv, data2): the existence test is per entry
+    # and per path component, whatever was created just before
+    corp = []
+    for driver in ('parfile', 'parblock'):
+        for order in ((b'data', b'data.csv', b'data2'), (b'data', b'data2', b'data.csv')):
+            c2 = treerun.Scn(); c2.driver = driver
+            c2.d(b'/W').d(b'/W/data').f(b'/W/data/x').f(b'/W/data.csv').d(b'/W/data2').f(b'/W/data2/keep').d(b'/W/DEST').f(b'/W/DEST/data.csv').d(b'/W/DEST/data2').f(b'/W/DEST/data2/keep')
+            c2.opts = ['r', 'n']; c2.paths = list(order) + [b'DEST']; c2.coll = (b'data.csv', 'f', 'file'); c2.meta = dict(dest=b'/W/DEST'); c2.extra = []
+            corp.append(c2)
+    scs = [c0, c1] + corp + [gen(rng, ['parfile', 'parblock'][i % 2]) for i in range(n)]
     runs = []
     with core.Scratch('c08') as base:
         for i, sc in enumerate(scs):
